@@ -286,17 +286,20 @@ Theorem div_dense_ieee_partial (A : sparse Z) (T : dense Z) : wf_sp zisz A ->
 Proof. intros WA. exact (impl_div_dense_partial 0 zisz x0 xdivz A T WA xdivz_0_l). Qed.
 
 (* ------------------------------------------------------------------------------------------ *)
-(* finding A-07 (open): sparse / sparse as pyttb computes it (Model/C03Gen.v impl_div_asis over the generated helpers) *)
+(* sparse / sparse as pyttb computes it (repaired tree e2beb21; Model/C03Gen.v impl_div_sparse_gen over the generated helpers).
+   Finding A-07 (pairing by position, rows taken from the wrong list) is fixed; what remains is finding C03-N7: x/0 is filled
+   with NaN and 0/x is stored as an explicit 0. *)
 (* ------------------------------------------------------------------------------------------ *)
-Definition div_sparse_asis_stmt : Prop :=
+Definition div_sparse_stmt : Prop :=
   forall (A B : sparse Z), wf_sp zisz A -> wf_sp zisz B -> sshape B = sshape A -> sshape A <> [] ->
-  exists R, impl_div_asis 0 xdivz XNaN x0 (allsubsC (sshape A)) A B = Ok R /\
+  exists R, impl_div_sparse_gen 0 xdivz XNaN x0 (allsubsC (sshape A)) A B = Ok R /\
             forall i, inb (sshape A) i = true -> den_sp x0 R i = xdivz (zden_sp A i) (zden_sp B i).
 
 Definition wdA : sparse Z := mkSp [2; 2]%nat [[1; 0]]%nat [4].
 Definition wdB : sparse Z := mkSp [2; 2]%nat [[1; 1]; [0; 0]]%nat [3; 2].
 
-Theorem div_sparse_asis_refuted : ~ div_sparse_asis_stmt.
+(* C03-N7: 4/0 at [1,0] comes out NaN, the element-wise quotient is +inf *)
+Theorem div_sparse_refuted : ~ div_sparse_stmt.
 Proof.
   intros H.
   assert (WA : wf_sp zisz wdA) by (unfold wf_sp; cbn; repeat split; auto; repeat constructor; cbn; intuition discriminate).
@@ -305,7 +308,7 @@ Proof.
   vm_compute in E. inversion E; subst R. specialize (D [1; 0]%nat eq_refl). vm_compute in D. discriminate.
 Qed.
 
-Section DivPartial.
+Section DivSparse.
 Context {V X : Type} (v0 : V) (isz : V -> bool) (x0 : X).
 Hypothesis isz_spec : forall v, isz v = true <-> v = v0.
 Variables (dv : V -> V -> X) (xnan xzero : X).
@@ -317,91 +320,237 @@ Proof. destruct l; auto. Qed.
 Lemma rows_diff_nil (l : list idx) : rows_diff l [] = l.
 Proof. unfold rows_diff. cbn. induction l; cbn; auto. now f_equal. Qed.
 
-Lemma filter_mem_self (l : list idx) : filter (fun i => mem i l) l = l.
+Lemma rows_inter_nil_r (l : list idx) : rows_inter l [] = [].
+Proof. unfold rows_inter. induction l; cbn; auto. Qed.
+
+Lemma in_rows_inter i l1 l2 : In i (rows_inter l1 l2) <-> In i l1 /\ In i l2.
+Proof. unfold rows_inter. now rewrite filter_In, mem_spec. Qed.
+
+Lemma in_rows_diff i l1 l2 : In i (rows_diff l1 l2) <-> In i l1 /\ ~ In i l2.
+Proof. unfold rows_diff. now rewrite filter_In, negb_true_iff, mem_false. Qed.
+
+(* X[tt_intersect_rows(X, Y)] appended with a constant fill: the rows of Y that occur in X, in the order of Y *)
+Lemma more_rows_pos (acc : list idx * list X) (src l2 : list idx) (fill : X) :
+  more_rows acc src (map (fun i => Z.of_nat (pos i src)) (rows_inter l2 src)) fill =
+  Ok (fst acc ++ rows_inter l2 src, snd acc ++ map (fun _ => fill) (rows_inter l2 src)).
 Proof.
-  assert (G : forall l0, (forall i, In i l0 -> In i l) -> filter (fun i => mem i l) l0 = l0).
-  { induction l0 as [|j l0 IH]; intros H; cbn; auto. rewrite (proj2 (mem_spec j l)) by (apply H; cbn; auto).
-    f_equal. apply IH. intros i Hi. apply H. cbn; auto. }
-  now apply G.
+  set (C := rows_inter l2 src).
+  assert (HC : forall i, In i C -> In i src) by (intros i Hi; now apply in_rows_inter in Hi).
+  unfold more_rows. destruct C as [|c C'] eqn:EC.
+  - cbn [map nonempty]. destruct acc; cbn [fst snd]. now rewrite !app_nil_r.
+  - rewrite <- EC in *. assert (EN : nonempty (map (fun i => Z.of_nat (pos i src)) C) = true) by (rewrite EC; reflexivity).
+    rewrite EN. unfold take_chk.
+    match goal with |- context [forallb ?p ?l] => assert (Hchk : forallb p l = true) end.
+    { apply forallb_forall. intros k Hk. apply in_map_iff in Hk as (i & <- & Hi). destruct (pos_spec i src (HC i Hi)) as [Hp _].
+      unfold zlen. unfold idx in *. apply andb_true_iff. split; [apply Z.leb_le|apply Z.ltb_lt]; lia. }
+    rewrite Hchk. cbn [bind fst snd]. rewrite take_pos, map_map. f_equal. f_equal. f_equal.
+    transitivity (map (fun i : idx => i) C); [|apply map_id]. apply map_ext_in. intros i Hi. now apply pos_spec, HC.
 Qed.
 
-Lemma filter_mem_diff (l1 l2 : list idx) : filter (fun i => mem i l2) (rows_diff l1 l2) = [].
+Lemma more_rows_inter N (acc : list idx * list X) (src l2 : list idx) (fill : X) :
+  (0 < N)%nat -> NoDup src -> NoDup l2 -> width N src -> width N l2 ->
+  bind (tt_intersect_rows (zrows src) (zrows l2)) (fun moresubs => more_rows acc src moresubs fill) =
+  Ok (fst acc ++ rows_inter l2 src, snd acc ++ map (fun _ => fill) (rows_inter l2 src)).
 Proof.
-  unfold rows_diff. induction l1 as [|j l1 IH]; cbn; auto. destruct (mem j l2) eqn:E; cbn; auto. now rewrite E.
+  intros HN Hs H2 Ws W2. rewrite (intersect_rows_idx _ HN src l2) by auto. cbn [bind].
+  fold (rows_inter l2 src). apply more_rows_pos.
 Qed.
 
-(* where the code is right: both operands store the same subscripts in the same order *)
-Theorem impl_div_asis_partial (alls : list idx) (A B : sparse V) :
-  wf_sp isz A -> wf_sp isz B -> sshape B = sshape A -> sshape A <> [] -> ssubs B = ssubs A ->
-  NoDup alls -> (forall i, In i alls <-> inb (sshape A) i = true) -> xnan = dv v0 v0 ->
-  exists R, impl_div_asis v0 dv xnan xzero alls A B = Ok R /\ @wf_struct X R /\ sshape R = sshape A /\
+Lemma more_rows_inter_if N (acc : list idx * list X) (src l2 : list idx) (fill : X) :
+  (0 < N)%nat -> NoDup src -> NoDup l2 -> width N src -> width N l2 ->
+  (if nonempty src then bind (tt_intersect_rows (zrows src) (zrows l2)) (fun moresubs => more_rows acc src moresubs fill)
+   else Ok acc) =
+  Ok (fst acc ++ rows_inter l2 src, snd acc ++ map (fun _ => fill) (rows_inter l2 src)).
+Proof.
+  intros HN Hs H2 Ws W2. destruct (nonempty_cases src) as [E|E].
+  - subst src. cbn [nonempty]. rewrite rows_inter_nil_r. destruct acc; cbn [fst snd map]. now rewrite !app_nil_r.
+  - rewrite E. now apply (more_rows_inter N).
+Qed.
+
+(* closed form: every position of the shape is stored, in four groups *)
+Theorem impl_div_sparse_gen_eq (alls : list idx) (A B : sparse V) :
+  wf_struct A -> wf_struct B -> sshape B = sshape A -> sshape A <> [] ->
+  NoDup alls -> (forall i, In i alls <-> inb (sshape A) i = true) ->
+  let ZA := rows_diff alls (ssubs A) in let ZB := rows_diff alls (ssubs B) in
+  let subs := ((rows_inter (ssubs B) (ssubs A) ++ rows_inter ZB (ssubs A)) ++ rows_inter ZA (ssubs B)) ++ rows_inter ZB ZA in
+  impl_div_sparse_gen v0 dv xnan xzero alls A B = Ok (mkSp (sshape A) subs (map (div_fill v0 dv xnan xzero A B) subs)).
+Proof.
+  intros WsA WsB Hs Hne Hnd Hall ZA ZB subs.
+  assert (HN : (0 < length (sshape A))%nat) by (destruct (sshape A); [contradiction|cbn; lia]).
+  pose proof (width_subs A WsA) as WdA. pose proof (width_subs B WsB) as WdB. rewrite Hs in WdB.
+  pose proof WsA as (HLA & HnA & HbA). pose proof WsB as (HLB & HnB & HbB).
+  assert (Wall : width (length (sshape A)) alls) by (intros i Hi; apply Hall in Hi; now apply inb_length).
+  assert (WZA : width (length (sshape A)) ZA) by (now apply width_filter).
+  assert (WZB : width (length (sshape A)) ZB) by (now apply width_filter).
+  assert (NZA : NoDup ZA) by (now apply NoDup_filter). assert (NZB : NoDup ZB) by (now apply NoDup_filter).
+  set (f := fun i => dv (den A i) (den B i)).
+  unfold impl_div_sparse_gen. cbv zeta.
+  assert (E0 : forall S : sparse V, NoDup (ssubs S) -> width (length (sshape A)) (ssubs S) ->
+               (if nonempty (ssubs S) then gen_diff alls (ssubs S) else Ok alls) = Ok (rows_diff alls (ssubs S))).
+  { intros S HnS WS. destruct (nonempty_cases (ssubs S)) as [El|El]; rewrite El; [now rewrite rows_diff_nil|].
+    now apply (gen_diff_spec _ HN). }
+  rewrite (E0 A HnA WdA). cbn [bind]. rewrite (E0 B HnB WdB). cbn [bind]. fold ZA ZB.
+  set (C := rows_inter (ssubs B) (ssubs A)).
+  assert (E1 : (if nonempty (ssubs A) && nonempty (ssubs B) then
+                  bind (tt_intersect_rows (zrows (ssubs A)) (zrows (ssubs B))) (fun idxSelf =>
+                  bind (tt_ismember_rows (zrows (np_take [] (ssubs A) idxSelf)) (zrows (ssubs B))) (fun mr =>
+                  Ok (np_take [] (ssubs A) idxSelf, zipw dv (np_take v0 (svals A) idxSelf) (np_take v0 (svals B) (snd mr)))))
+                else Ok ([], [])) = Ok (C, map f C)).
+  { destruct (nonempty_cases (ssubs A)) as [El|El].
+    { rewrite El. unfold C. rewrite El, rows_inter_nil_r. reflexivity. }
+    destruct (nonempty_cases (ssubs B)) as [Fl|Fl].
+    { rewrite Fl, andb_false_r. unfold C. rewrite Fl. reflexivity. }
+    rewrite El, Fl. cbn [andb].
+    rewrite (intersect_rows_idx _ HN (ssubs A) (ssubs B)) by auto. cbn [bind].
+    fold (rows_inter (ssubs B) (ssubs A)). fold C.
+    assert (HCA : forall i, In i C -> In i (ssubs A)) by (intros i Hi; now apply in_rows_inter in Hi).
+    assert (HCB : forall i, In i C -> In i (ssubs B)) by (intros i Hi; now apply in_rows_inter in Hi).
+    assert (ET : np_take [] (ssubs A) (map (fun i => Z.of_nat (pos i (ssubs A))) C) = C).
+    { rewrite take_pos. rewrite <- (map_id C) at 2. apply map_ext_in. intros i Hi. now apply pos_spec, HCA. }
+    rewrite ET.
+    destruct (ismember_rows_idx _ HN C (ssubs B)) as (m & E); auto; [unfold C; now apply width_filter|].
+    rewrite E. cbn [bind snd]. f_equal. f_equal. rewrite !take_pos.
+    rewrite (map_ext_in _ (fun i => den A i)) by (intros i Hi; apply (nth_pos_vals v0); auto).
+    rewrite (map_ext_in (fun i => nth (pos i (ssubs B)) (svals B) v0) (fun i => den B i))
+      by (intros i Hi; apply (nth_pos_vals v0); auto).
+    apply zipw_map. }
+  rewrite E1. cbn [bind].
+  rewrite (more_rows_inter_if _ _ (ssubs A) ZB xnan HN) by auto. cbn [bind fst snd].
+  rewrite (more_rows_inter_if _ _ (ssubs B) ZA xzero HN) by auto. cbn [bind fst snd].
+  rewrite (intersect_rows_idx _ HN ZA ZB) by auto. cbn [bind]. fold (rows_inter ZB ZA).
+  rewrite more_rows_pos. cbn [bind fst snd].
+  f_equal. fold subs. f_equal. unfold subs. rewrite !map_app. unfold div_fill.
+  f_equal; [f_equal; [f_equal|]|]; apply map_ext_in; intros i Hi.
+  - apply in_rows_inter in Hi as [HiB HiA]. now rewrite (proj2 (mem_spec i (ssubs A)) HiA), (proj2 (mem_spec i (ssubs B)) HiB).
+  - apply in_rows_inter in Hi as [HiZ HiA]. apply in_rows_diff in HiZ as [_ HiB].
+    now rewrite (proj2 (mem_spec i (ssubs A)) HiA), (proj2 (mem_false i (ssubs B)) HiB).
+  - apply in_rows_inter in Hi as [HiZ HiB]. apply in_rows_diff in HiZ as [_ HiA].
+    now rewrite (proj2 (mem_false i (ssubs A)) HiA), (proj2 (mem_spec i (ssubs B)) HiB).
+  - apply in_rows_inter in Hi as [HiZB HiZA]. apply in_rows_diff in HiZB as [_ HiB]. apply in_rows_diff in HiZA as [_ HiA].
+    now rewrite (proj2 (mem_false i (ssubs A)) HiA), (proj2 (mem_false i (ssubs B)) HiB).
+Qed.
+
+(* the repaired code, position by position: structurally well-formed, stores EVERY position of the shape (so 0/x is an
+   explicit zero), the quotient of the two stored values where both operands store the subscript (ANY relative stored
+   orders: finding A-07 is gone), xnan where only self stores it, xzero where only other stores it, xnan elsewhere *)
+Theorem impl_div_sparse_gen_char (alls : list idx) (A B : sparse V) :
+  wf_struct A -> wf_struct B -> sshape B = sshape A -> sshape A <> [] ->
+  NoDup alls -> (forall i, In i alls <-> inb (sshape A) i = true) ->
+  exists R, impl_div_sparse_gen v0 dv xnan xzero alls A B = Ok R /\ @wf_struct X R /\ sshape R = sshape A /\
+            (forall i, In i (ssubs R) <-> inb (sshape A) i = true) /\
+            forall i, inb (sshape A) i = true -> den_sp x0 R i = div_fill v0 dv xnan xzero A B i.
+Proof.
+  intros WsA WsB Hs Hne Hnd Hall. eexists. split; [now apply impl_div_sparse_gen_eq|]. cbv zeta.
+  set (ZA := rows_diff alls (ssubs A)). set (ZB := rows_diff alls (ssubs B)).
+  set (subs := ((rows_inter (ssubs B) (ssubs A) ++ rows_inter ZB (ssubs A)) ++ rows_inter ZA (ssubs B)) ++ rows_inter ZB ZA).
+  pose proof WsA as (HLA & HnA & HbA). pose proof WsB as (HLB & HnB & HbB).
+  assert (HinA : forall i, In i (ssubs A) -> In i alls) by (intros i Hi; apply Hall; now apply wf_inb).
+  assert (HinB : forall i, In i (ssubs B) -> In i alls) by (intros i Hi; apply Hall; rewrite <- Hs; now apply wf_inb).
+  assert (Hmem : forall i, In i subs <-> In i alls).
+  { intros i. unfold subs, ZA, ZB. rewrite !in_app_iff, !in_rows_inter, !in_rows_diff.
+    destruct (in_dec idx_dec i (ssubs A)) as [HA|HA], (in_dec idx_dec i (ssubs B)) as [HB|HB]; split; intros H;
+      try (specialize (HinA i)); try (specialize (HinB i)); tauto. }
+  assert (Hnds : NoDup subs).
+  { unfold subs, ZA, ZB. repeat apply NoDup_app_intro; try (apply NoDup_filter; auto; now apply NoDup_filter).
+    - intros i H1 H2. apply in_rows_inter in H1, H2. rewrite in_rows_diff in H2. tauto.
+    - intros i H1 H2. rewrite in_app_iff, !in_rows_inter, !in_rows_diff in *. tauto.
+    - intros i H1 H2. rewrite !in_app_iff, !in_rows_inter, !in_rows_diff in *. tauto. }
+  split; [|split; [reflexivity|split]].
+  - unfold wf_struct. cbn [ssubs svals sshape]. rewrite map_length. split; [reflexivity|]. split; [exact Hnds|].
+    rewrite Forall_forall. intros i Hi. apply Hall. now apply Hmem.
+  - intros i. cbn [ssubs]. rewrite Hmem. apply Hall.
+  - intros i Hi. rewrite (den_mk_map x0) by exact Hnds. rewrite (proj2 (mem_spec i subs)); [reflexivity|]. apply Hmem. now apply Hall.
+Qed.
+
+(* in terms of the operands' VALUES (well-formed operands: stored <-> nonzero): the element-wise quotient at every position
+   where the dividend is zero or the divisor is nonzero; xnan where a nonzero is divided by zero (finding C03-N7) *)
+Theorem impl_div_sparse_gen_partial (alls : list idx) (A B : sparse V) :
+  wf_sp isz A -> wf_sp isz B -> sshape B = sshape A -> sshape A <> [] ->
+  NoDup alls -> (forall i, In i alls <-> inb (sshape A) i = true) ->
+  xnan = dv v0 v0 -> (forall y, y <> v0 -> dv v0 y = xzero) ->
+  exists R, impl_div_sparse_gen v0 dv xnan xzero alls A B = Ok R /\ @wf_struct X R /\ sshape R = sshape A /\
+            length (ssubs R) = length alls /\
+            (forall i, inb (sshape A) i = true -> den A i = v0 \/ den B i <> v0 -> den_sp x0 R i = dv (den A i) (den B i)) /\
+            (forall i, inb (sshape A) i = true -> den A i <> v0 -> den B i = v0 -> den_sp x0 R i = xnan).
+Proof.
+  intros WA WB Hs Hne Hnd Hall Hnan Hz.
+  pose proof (wf_sp_struct isz A WA) as WsA. pose proof (wf_sp_struct isz B WB) as WsB.
+  destruct (impl_div_sparse_gen_char alls A B WsA WsB Hs Hne Hnd Hall) as (R & E & W & S & M & D).
+  exists R. split; [exact E|split; [exact W|split; [exact S|split; [|split]]]].
+  - destruct W as (_ & HnR & _). apply Nat.le_antisymm; apply NoDup_incl_length; auto; intros i Hi.
+    + apply Hall. now apply M.
+    + apply M. now apply Hall.
+  - intros i Hi Hv. rewrite (D i Hi). unfold div_fill.
+    destruct (mem i (ssubs A)) eqn:HA, (mem i (ssubs B)) eqn:HB; try reflexivity.
+    + apply mem_spec in HA. apply mem_false in HB. apply (in_subs_iff v0 isz isz_spec A i WA) in HA.
+      rewrite (den_sp_notin v0 B i HB) in Hv. tauto.
+    + apply mem_false in HA. apply mem_spec in HB. apply (in_subs_iff v0 isz isz_spec B i WB) in HB.
+      rewrite (den_sp_notin v0 A i HA). symmetry. now apply Hz.
+    + apply mem_false in HA. apply mem_false in HB. now rewrite (den_sp_notin v0 A i HA), (den_sp_notin v0 B i HB).
+  - intros i Hi HvA HvB. rewrite (D i Hi). unfold div_fill.
+    apply (in_subs_iff v0 isz isz_spec A i WA) in HvA. rewrite (proj2 (mem_spec _ _) HvA).
+    destruct (mem i (ssubs B)) eqn:HB; [|reflexivity].
+    apply mem_spec in HB. apply (in_subs_iff v0 isz isz_spec B i WB) in HB. contradiction.
+Qed.
+
+(* operands with the same stored support (in ANY two stored orders): the element-wise quotient everywhere *)
+Corollary impl_div_sparse_gen_same_support (alls : list idx) (A B : sparse V) :
+  wf_sp isz A -> wf_sp isz B -> sshape B = sshape A -> sshape A <> [] ->
+  (forall i, In i (ssubs A) <-> In i (ssubs B)) ->
+  NoDup alls -> (forall i, In i alls <-> inb (sshape A) i = true) ->
+  xnan = dv v0 v0 -> (forall y, y <> v0 -> dv v0 y = xzero) ->
+  exists R, impl_div_sparse_gen v0 dv xnan xzero alls A B = Ok R /\ @wf_struct X R /\ sshape R = sshape A /\
             forall i, inb (sshape A) i = true -> den_sp x0 R i = dv (den A i) (den B i).
 Proof.
-  intros WA WB Hs Hne Hsub Hnd Hall Hnan.
-  pose proof (wf_sp_struct isz A WA) as WsA. pose proof (wf_sp_struct isz B WB) as WsB.
-  assert (HN : (0 < length (sshape A))%nat) by (destruct (sshape A); [contradiction|cbn; lia]).
-  pose proof (width_subs A WsA) as WdA. pose proof WsA as (HLA & HnA & HbA).
-  assert (Wall : width (length (sshape A)) alls) by (intros i Hi; apply Hall in Hi; now apply inb_length).
-  set (Zs := rows_diff alls (ssubs A)).
-  assert (WZ : width (length (sshape A)) Zs) by (now apply width_filter).
-  assert (NZ : NoDup Zs) by (now apply NoDup_filter).
-  set (f := fun i => dv (den A i) (den B i)).
-  unfold impl_div_asis. rewrite Hsub.
-  assert (E0 : (if nonempty (ssubs A) then gen_diff alls (ssubs A) else Ok alls) = Ok Zs).
-  { destruct (nonempty_cases (ssubs A)) as [El|El]; rewrite El; [unfold Zs; now rewrite El, rows_diff_nil|].
-    now apply (gen_diff_spec _ HN). }
-  rewrite E0. cbn [bind].
-  assert (E1 : (if nonempty (ssubs A) && nonempty (ssubs A) then
-                  bind (tt_intersect_rows (zrows (ssubs A)) (zrows (ssubs A))) (fun idxSelf =>
-                  bind (tt_intersect_rows (zrows (ssubs A)) (zrows (ssubs A))) (fun idxOther =>
-                  Ok (np_take [] (ssubs A) idxSelf, zipw dv (np_take v0 (svals A) idxSelf) (np_take v0 (svals B) idxOther))))
-                else Ok ([], [])) = Ok (ssubs A, map f (ssubs A))).
-  { destruct (nonempty_cases (ssubs A)) as [El|El]; [rewrite El; reflexivity|rewrite El]. cbn [andb].
-    rewrite (intersect_rows_idx _ HN (ssubs A) (ssubs A)) by auto. cbn [bind]. rewrite filter_mem_self. rewrite !take_pos. f_equal. f_equal.
-    - transitivity (map (fun i : idx => i) (ssubs A)); [|apply map_id]. apply map_ext_in. intros i Hi. now apply pos_spec.
-    - rewrite (map_ext_in _ (fun i => den A i)) by (intros i Hi; now apply (nth_pos_vals v0)).
-      rewrite (map_ext_in (fun i => nth (pos i (ssubs A)) (svals B) v0) (fun i => den B i)).
-      + apply zipw_map.
-      + intros i Hi. rewrite <- Hsub in *. now apply (nth_pos_vals v0). }
-  rewrite E1. cbn [bind].
-  assert (E2 : forall (acc : list idx * list X) (src : list idx) (fill : X),
-            (if nonempty (ssubs A) then bind (tt_intersect_rows (zrows (ssubs A)) (zrows Zs)) (fun moresubs => more_rows acc src moresubs fill)
-             else Ok acc) = Ok acc).
-  { intros acc src fill. destruct (nonempty_cases (ssubs A)) as [El|El]; [rewrite El; reflexivity|rewrite El].
-    rewrite (intersect_rows_idx _ HN (ssubs A) Zs) by auto. cbn [bind]. unfold Zs. now rewrite filter_mem_diff. }
-  rewrite E2. cbn [bind]. rewrite E2. cbn [bind].
-  rewrite (intersect_rows_idx _ HN Zs Zs) by auto. cbn [bind]. rewrite filter_mem_self.
-  assert (E3 : more_rows (ssubs A, map f (ssubs A)) Zs (map (fun i => Z.of_nat (pos i Zs)) Zs) xnan =
-               Ok (ssubs A ++ Zs, map f (ssubs A) ++ map (fun _ => xnan) Zs)).
-  { unfold more_rows. destruct (nonempty_cases Zs) as [EZ|EZ].
-    - rewrite EZ. cbn [map nonempty fst snd]. now rewrite !app_nil_r.
-    - assert (EZ' : nonempty (map (fun i => Z.of_nat (pos i Zs)) Zs) = true) by (destruct Zs; [discriminate|reflexivity]).
-      rewrite EZ'. unfold take_chk.
-      match goal with |- context [forallb ?p ?l] => assert (Hchk : forallb p l = true) end.
-      { apply forallb_forall. intros k Hk. apply in_map_iff in Hk as (i & <- & Hi). destruct (pos_spec i Zs Hi) as [Hp _].
-        unfold zlen. unfold idx in *. apply andb_true_iff. split; [apply Z.leb_le|apply Z.ltb_lt]; lia. }
-      rewrite Hchk. cbn [bind fst snd]. rewrite take_pos, map_map. f_equal. f_equal. f_equal.
-      transitivity (map (fun i : idx => i) Zs); [|apply map_id]. apply map_ext_in. intros i Hi. now apply pos_spec. }
-  rewrite E3. cbn [bind fst snd]. eexists. split; [reflexivity|]. split; [|split; [reflexivity|]].
-  - unfold wf_struct. cbn [ssubs svals sshape]. rewrite !app_length, !map_length. split; [lia|]. split.
-    + apply NoDup_app_intro; auto. intros i H1 H2. apply filter_In in H2 as [_ H2]. apply negb_true_iff, mem_false in H2. contradiction.
-    + apply Forall_app. split; auto. rewrite Forall_forall. intros i Hi. apply filter_In in Hi as [Hi _]. now apply Hall.
-  - intros i Hi. unfold den_sp at 1, entries at 1. cbn [ssubs svals].
-    rewrite combine_app by (now rewrite map_length). rewrite last_match_app.
-    destruct (in_dec idx_dec i (ssubs A)) as [Hin|Hout].
-    + rewrite (last_match_notin i (combine Zs _)).
-      * apply last_match_in; [rewrite map_fst_combine; auto; now rewrite map_length|].
-        assert (G : forall l0, In i l0 -> In (i, f i) (combine l0 (map f l0))).
-        { induction l0 as [|j l0 IH]; cbn; [tauto|]. intros [->|H]; auto. }
-        now apply G.
-      * intros e He Hf. destruct e as [j w]. cbn in Hf. subst j. apply in_combine_l in He.
-        apply filter_In in He as [_ He]. apply negb_true_iff, mem_false in He. contradiction.
-    + rewrite (last_match_notin i (combine (ssubs A) _)).
-      * rewrite (den_sp_notin v0 A i Hout). rewrite (den_sp_notin v0 B i) by (now rewrite Hsub). rewrite <- Hnan.
-        apply last_match_in; [rewrite map_fst_combine; auto; now rewrite map_length|].
-        assert (G : forall l0, In i l0 -> In (i, xnan) (combine l0 (map (fun _ : idx => xnan) l0))).
-        { induction l0 as [|j l0 IH]; cbn; [tauto|]. intros [->|H]; auto. }
-        apply G. apply filter_In. split; [now apply Hall|]. now apply negb_true_iff, mem_false.
-      * intros e He Hf. destruct e as [j w]. cbn in Hf. subst j. apply in_combine_l in He. contradiction.
+  intros WA WB Hs Hne Hsup Hnd Hall Hnan Hz.
+  destruct (impl_div_sparse_gen_partial alls A B WA WB Hs Hne Hnd Hall Hnan Hz) as (R & E & W & S & _ & D & _).
+  exists R. split; [exact E|split; [exact W|split; [exact S|]]]. intros i Hi. apply D; auto.
+  destruct (in_dec idx_dec i (ssubs A)) as [HA|HA].
+  - right. apply (in_subs_iff v0 isz isz_spec B i WB). now apply Hsup.
+  - left. now apply den_sp_notin.
 Qed.
-End DivPartial.
+End DivSparse.
+
+(* the IEEE instance over pyttb's own enumeration of the shape *)
+Lemma allsubsC_NoDup s : NoDup (allsubsC s).
+Proof.
+  unfold allsubsC. apply FinFun.Injective_map_NoDup; [|apply allsubs_NoDup].
+  intros a b H. rewrite <- (rev_involutive a), <- (rev_involutive b). now f_equal.
+Qed.
+
+Lemma inb_rev : forall s i, inb (rev s) (rev i) = inb s i.
+Proof.
+  assert (G : forall s i, inb s i = true -> inb (rev s) (rev i) = true).
+  { induction s as [|d s IH]; intros [|x i] H; cbn in *; try discriminate; auto.
+    apply andb_true_iff in H as [H1 H2]. specialize (IH i H2).
+    assert (K : forall s1 i1, inb s1 i1 = true -> inb (s1 ++ [d]) (i1 ++ [x]) = true).
+    { induction s1 as [|e s1 IH1]; intros [|y i1] Hk; cbn in *; try discriminate.
+      - now rewrite H1.
+      - apply andb_true_iff in Hk as [K1 K2]. rewrite K1. cbn. now apply IH1. }
+    now apply K. }
+  intros s i. destruct (inb s i) eqn:E; [now apply G|].
+  destruct (inb (rev s) (rev i)) eqn:E'; [|reflexivity]. apply G in E'. rewrite !rev_involutive in E'. congruence.
+Qed.
+
+Lemma in_allsubsC s i : In i (allsubsC s) <-> inb s i = true.
+Proof.
+  unfold allsubsC. rewrite in_map_iff. split.
+  - intros (j & <- & Hj). apply in_allsubs in Hj. rewrite <- inb_rev, rev_involutive. exact Hj.
+  - intros H. exists (rev i). split; [apply rev_involutive|]. apply in_allsubs. now rewrite inb_rev.
+Qed.
+
+Theorem div_sparse_ieee_partial (A B : sparse Z) : wf_sp zisz A -> wf_sp zisz B -> sshape B = sshape A -> sshape A <> [] ->
+  exists R, impl_div_sparse_gen 0 xdivz XNaN x0 (allsubsC (sshape A)) A B = Ok R /\ wf_struct R /\ sshape R = sshape A /\
+            length (ssubs R) = size (sshape A) /\
+            (forall i, inb (sshape A) i = true -> zden_sp A i = 0 \/ zden_sp B i <> 0 ->
+                       den_sp x0 R i = xdivz (zden_sp A i) (zden_sp B i)) /\
+            (forall i, inb (sshape A) i = true -> zden_sp A i <> 0 -> zden_sp B i = 0 -> den_sp x0 R i = XNaN).
+Proof.
+  intros WA WB Hs Hne.
+  destruct (impl_div_sparse_gen_partial 0 zisz x0 zisz_spec xdivz XNaN x0 (allsubsC (sshape A)) A B WA WB Hs Hne
+              (allsubsC_NoDup _) (in_allsubsC _) eq_refl xdivz_0_l) as (R & E & W & S & L & D1 & D2).
+  exists R. split; [exact E|split; [exact W|split; [exact S|split; [|split; [exact D1|exact D2]]]]].
+  rewrite L. unfold allsubsC, allsubs. rewrite !map_length, seq_length.
+  clear. induction (sshape A) as [|d s IH]; [reflexivity|].
+  cbn [rev]. rewrite size_app, IH, !size_cons. change (size []) with 1%nat. lia.
+Qed.
